@@ -188,7 +188,6 @@ func c04R5(ic *IC, r *Report) {
 // c04HiddenSlots: slots that are not program variables, keyed "<generator>: <value generator>".
 var c04HiddenSlots = map[string]string{
 	"_range: value":   "the hidden shadow slot of a range statement (index2) receives the operand evaluated once through the copying generator (decided by R04.5)",
-	"rangeInt: value": "the hidden slot of `for i := range n` receives the integer bound evaluated once",
 }
 
 func c04R8(ic *IC, r *Report) {
